@@ -190,6 +190,7 @@ struct Interp {
         cf_names("vtapp", "1.2.3");
         { std::ofstream o(dir + "/a.cfg", std::ios::binary); o << kMagic << "begin main\n  line one\n  %put(fromfile yes)\n  value %get(fromfile)\nend\nbegin other\nbegin main\nx\nend\n"; }
         { std::ofstream o(dir + "/inc.cfg", std::ios::binary); o << kMagic << "begin main\n%include a.cfg\nend\n"; }
+        { std::ofstream o(dir + "/deep.cfg", std::ios::binary); o << kMagic; for (int k = 0; k < 45; k++) o << "begin main\n"; o << "deep text\n"; }
         bool live = false, included = false;
         int cycles = 0;
         std::map<std::string, std::string> vars;
@@ -197,11 +198,24 @@ struct Interp {
             const Op &op = c[at];
             ctx.step((int)at);
             ht_set_tag((int)at);
-            if (op.name == "init") { if (live) continue; LA(cf_init()); live = true; vars.clear(); cycles++; if (cycles >= 2) ctx.label("second-cycle"); continue; }
+            if (op.name == "init") {
+                if (live) continue;
+                LA(cf_init()); live = true; vars.clear(); cycles++;
+                if (cycles >= 2) ctx.label("second-cycle");
+                VT_CHECK(ctx, cf_stack(0) == 0 && cf_fstate_idx() == 0, "mismatch", "state-left-behind; a freshly initialised subsystem starts with context depth " << cf_stack(0) << " and file stack index " << cf_fstate_idx() << " (cycle " << cycles << ")");
+                continue;
+            }
             if (!live) continue;
             if (op.name == "regctx") { long n = op.i(0); for (long i = 0; i < n && i < 250; i++) { std::string nm = (i == 0 ? std::string("main") : "c" + std::to_string(at) + "_" + std::to_string(i)); LA(cf_register(nm.c_str(), i < 31 ? (int)i : 99)); } if (n > 20) ctx.label("context-table-grew"); }
             else if (op.name == "regbi") { long n = op.i(0); for (long i = 0; i < n && i < 40; i++) { std::string nm = "b" + std::to_string(at) + "_" + std::to_string(i); LA(cf_register_builtin(nm.c_str())); } if (n >= 4) ctx.label("builtin-table-grew"); }
-            else if (op.name == "parse") { bool inc = op.i(0) == 1; LA(cf_parse(inc ? "inc.cfg" : "a.cfg", nullptr, nullptr)); if (inc) included = true; vars["fromfile"] = "yes"; cf_reset_log(); ctx.label(inc ? "parse-with-include" : "parse"); }
+            else if (op.name == "parse") {
+                bool inc = op.i(0) == 1, deep = op.i(0) == 2;
+                LA(cf_parse(deep ? "deep.cfg" : inc ? "inc.cfg" : "a.cfg", nullptr, nullptr));
+                if (inc) included = true;
+                if (!deep) vars["fromfile"] = "yes";
+                cf_reset_log();
+                ctx.label(deep ? "parse-leaving-45-contexts-open" : inc ? "parse-with-include" : "parse");
+            }
             else if (op.name == "put") { std::string k = op.s(0).empty() ? "k" : op.s(0), v = op.s(1).empty() ? "v" : op.s(1); std::string e = "%put(" + k + " " + v + ")"; LA(c11_expand(e.c_str())); vars[k] = v; ctx.label("put"); }
             else if (op.name == "get") {
                 std::string k = op.s(0).empty() ? "k" : op.s(0), e = "<%get(" + k + ")>";
@@ -230,7 +244,8 @@ struct Interp {
 rc::Gen<std::string> gen_line_unit() {
     return rc::gen::exec([]() {
         static const std::vector<std::string> kw = {"begin main", "begin ctx3", "begin nosuch", "begin ", "begin", "end", "end x", "%include f.cfg", "%include nosuch.cfg", "%include", "%preproc", "%", "%put(k v)", "%get(k)", "%random(a b)",
-            "value $HOME ~ \\n", "text `", "'unterminated", "a ${", "%exec", "<other-1.0>", "# comment", "", " ", "\t", "%get(", "b", "e", "%dirscan(.)", "%version()", "x%appname()y"};
+            "value $HOME ~ \\n", "text `", "'unterminated", "a ${", "%exec", "<other-1.0>", "# comment", "", " ", "\t", "%get(", "b", "e", "%dirscan(.)", "%version()", "x%appname()y",
+            "%e(echo hi)", "%ex(touch marker)", "%exe(x)", "x %g(k)", "%pu(k v)", "%ver()", "%r(a b)", "%inc f.cfg", "%pre cat"};   // prefixes of directive / built-in names are not those names
         int k = (int)*range(0, 9);
         if (k < 6) return std::string(*rc::gen::elementOf(kw));
         if (k < 8) { std::string s; long n = *range(0, 12); for (long i = 0; i < n; i++) s.push_back((char)*range(0, 255)); for (auto &ch : s) if (ch == '\n') ch = ' '; return s; }
@@ -297,7 +312,7 @@ rc::Gen<Case> gen_cycle() {
                 std::string key = *rc::gen::elementOf(std::vector<std::string>{"k", "key2", "fromfile"});
                 if (k < 2) return mk("regctx", {*rc::gen::elementOf(std::vector<long>{1, 3, 19, 20, 21, 45, 170})});
                 if (k < 3) return mk("regbi", {*rc::gen::elementOf(std::vector<long>{1, 2, 3, 4, 14, 35})});
-                if (k < 5) return mk("parse", {*range(0, 3) == 0 ? 1 : 0});
+                if (k < 5) return mk("parse", {*rc::gen::elementOf(std::vector<long>{0, 0, 1, 2})});
                 if (k < 7) return mk("put", {}, {key, *rc::gen::elementOf(std::vector<std::string>{"v1", "v2", "x"})});
                 return mk("get", {}, {key});
             }));
